@@ -53,6 +53,8 @@ def sf_lines(rng, tier):
         inner = 1
         for n in shape[1:]:
             inner *= n
+        if inner * xsz * max(shape[0], 1000) >= (1 << 62):
+            continue        # not a legal variable: its size would not fit 63 bits (C18 rejects it at enddef)
         recsize = inner * xsz + (rng.choice([0, 4, 1 << 33]) if isrec else 0)
         st, ct, sd = [], [], []
         for d, n in enumerate(shape):
